@@ -73,6 +73,51 @@ def sweepers_reinitialised_in_place(tier, seed):
                              cases=ncases, failures=sum(len(v) for v in fails.values())))
 
 
+def verlet_position_matrix(tier, seed):
+    """verlet / boris_2nd_order construction on REAL node sets: the position matrix QQ is Q*Q, except on Gauss-Lobatto (Legendre) nodes, where it is
+    Q * B with B the partner matrix of the symplectic pair condition  w_m B[m,n] + w_n Q[n,m] = w_m w_n  (Lobatto IIIA-IIIB); qQ = w^T Q.
+    The partner is recomputed here from the condition in exact rationals on the returned doubles (allowance 1e-12)."""
+    from fractions import Fraction as Fr
+    from pySDC.core.level import Level
+    from vc.native import ConcreteLinearProblem
+
+    obs = []
+    for fn, cname in (('verlet.py', 'verlet'), ('boris_2nd_order.py', 'boris_2nd_order')):
+        cls = cls_of(SW + fn, cname)
+        for nt, qt in (('LEGENDRE', 'LOBATTO'), ('LEGENDRE', 'RADAU-RIGHT'), ('LEGENDRE', 'GAUSS'), ('EQUID', 'LOBATTO'), ('CHEBY-2', 'LOBATTO')):
+            for M in (2, 3, 4) if tier == 'quick' else (2, 3, 4, 5, 6):
+                tag = f'{cname}[{nt}/{qt}/M={M}]'
+                try:
+                    sw = Level(problem_class=ConcreteLinearProblem, problem_params=dict(kind='full'), sweeper_class=cls, sweeper_params=dict(num_nodes=M, quad_type=qt, node_type=nt),
+                               level_params=dict(dt=0.1), level_index=0).sweep
+                except Exception as e:
+                    obs.append(dict(name=f'{tag}:constructs', status='refuted', backend='exact-rational', seconds=0.0, kind='bounded', size=0, model=dict(error=repr(e)[:160]), reason='', path=0))
+                    continue
+                Q = [[Fr(float(v)) for v in row] for row in np.asarray(sw.coll.Qmat)]
+                w = [Fr(float(v)) for v in sw.coll.weights]
+                n = M + 1
+                if (nt, qt) == ('LEGENDRE', 'LOBATTO') and cname == 'verlet':  # boris_2nd_order uses Q*Q on every node set
+                    B = [[Fr(0)] * n for _ in range(n)]
+                    for m in range(M):
+                        for k in range(M):
+                            B[m + 1][k + 1] = (w[m] * w[k] - w[k] * Q[k + 1][m + 1]) / w[m]
+                else:
+                    B = Q
+                want = [[sum(Q[i][k] * B[k][j] for k in range(n)) for j in range(n)] for i in range(n)]
+                got = np.asarray(sw.QQ, dtype=float)
+                err = max(abs(Fr(float(got[i, j])) - want[i][j]) for i in range(n) for j in range(n))
+                ok = got.shape == (n, n) and err <= Fr(1, 10**12)
+                obs.append(dict(name=f'{tag}:position_matrix_QQ', status='proved' if ok else 'refuted', backend='exact-rational', seconds=0.0, kind='bounded', size=0,
+                                model=dict(max_deviation=float(err)) if not ok else None, reason='', path=0))
+                wantq = [sum(w[m] * Q[m + 1][j + 1] for m in range(M)) for j in range(M)]
+                gq = np.asarray(sw.qQ, dtype=float).ravel()
+                okq = len(gq) == M and max(abs(Fr(float(gq[j])) - wantq[j]) for j in range(M)) <= Fr(1, 10**12)
+                obs.append(dict(name=f'{tag}:qQ_is_weights_times_Q', status='proved' if okq else 'refuted', backend='exact-rational', seconds=0.0, kind='bounded', size=0, model=None, reason='', path=0))
+    return dict(contract='verlet.__init__ / boris_2nd_order.__init__ [position matrices on real node sets]', prop='C02', inst={}, label='exhaustive over the enumerated grid', kind='exact', obligations=obs, canaries=[], paths=1, status='ok',
+                bounded=dict(what='QQ and qQ of the second-order sweepers against Q*Q resp. the Lobatto IIIA-IIIB partner', bound='5 node sets x M = 2..4 (thorough: ..6), verlet and boris_2nd_order', cases=len(obs),
+                             failures=sum(1 for o in obs if o['status'] != 'proved')))
+
+
 CONTRACTS = []
-EXTRAS = [sweepers_reinitialised_in_place]
+EXTRAS = [sweepers_reinitialised_in_place, verlet_position_matrix]
 ASSUMPTIONS = ['qmat generators are deterministic functions of (nodes, type, k)']
